@@ -77,6 +77,10 @@ class VLoop(asyncio.SelectorEventLoop):
         events._set_running_loop(None)
         self._thread_id = None
 
+    def is_running_inside(self) -> bool:
+        """True while a callback of this loop is being run by step()/settle() in the current thread."""
+        return events._get_running_loop() is self
+
     def has_ready(self) -> bool:
         if self._ready:
             return True
